@@ -1,9 +1,11 @@
 (* Second-order segment integral with the dimensionless case selection of the code (|x dt| > thr2):
-   where a denominator is small but not zero the code uses the limit value; the deviation from the exact
-   iterated integral is at most  thr2 * T^2 * (1/2 + thr2/4)  in each component (soi_bound).        *)
+   where a denominator is small but not zero the code uses the limit value plus its first-order term (a13e2c1);
+   the deviation from the exact iterated integral is at most  thr2^2 * T^2 * (3/8 + thr2/4)  in each component
+   (soi_bound).  Evaluation errors u*T of the buffers are amplified by at most 2/thr2 resp. 4/thr2 + 1/2.   *)
 From Coq Require Import ZArith Reals Lra Lia List.
 From Coquelicot Require Import Coquelicot.
-From FF Require Import Base.Ops Inst.RInst Base.RAlg Model.Numeric Model.SecondOrder Proofs.Foi Proofs.SecondOrder.
+From FF Require Import Base.Ops Inst.RInst Base.RAlg Model.Numeric Model.SecondOrder Proofs.Foi Proofs.SecondOrder
+     Proofs.SecondOrderAsm Proofs.SecondOrderInt.
 Local Open Scope R_scope.
 
 Lemma is_CInt_sub f g a b z1 z2 :
@@ -88,84 +90,225 @@ Qed.
 
 Definition I2x (a b T : R) : Cx := soi_core_x RO a b (a + b) T.
 
-(* I2(a,b) - I2(a,0) *)
-Lemma I2x_b_close a b T : 0 <= T ->
-  Rabs (fst (I2x a b T) - fst (I2x a 0 T)) <= b * b * (T*T*T*T) / 8 + Rabs b * (T*T*T) / 6 /\
-  Rabs (snd (I2x a b T) - snd (I2x a 0 T)) <= b * b * (T*T*T*T) / 8 + Rabs b * (T*T*T) / 6.
+
+Lemma sqr_abs x : x * x = Rabs x * Rabs x.
+Proof. rewrite <- Rabs_mult. symmetry. apply Rabs_right. apply Rle_ge. nra. Qed.
+
+(* second-order remainders of sin and cos (constants not sharp) *)
+Lemma sin_rem x : Rabs (sin x - x) <= Rabs x * (x * x) / 2.
+Proof. pose proof (sin_minus_id_bound x). lra. Qed.
+Lemma cos_rem x : Rabs (1 - cos x - x * x / 2) <= x * x * (x * x) / 2.
 Proof.
-  intros HT.
-  pose proof (is_CInt_sub _ _ _ _ _ _ (soi_core_integral a b T) (soi_core_integral a 0 T)) as [H1 H2].
-  fold (I2x a b T) (I2x a 0 T) in H1, H2. cbn [fst snd] in H1, H2.
-  assert (E : forall t, csub' (cmul' (cexp' (a * t)) (Jc b t)) (cmul' (cexp' (a * t)) (Jc 0 t)) =
-                        cmul' (cexp' (a * t)) (Jre b t - t, Jim b t)).
-  { intros t. unfold Jc. rewrite Jre_0, Jim_0. apply c_eq; simpl; ring. }
-  assert (Hb : forall t, 0 <= t <= T -> Rabs (Jre b t - t) + Rabs (Jim b t) <= b * b * (t*t*t) / 2 + Rabs b * (t*t) / 2).
-  { intros t [Ht _]. pose proof (Jre_close b t Ht). pose proof (Jim_close b t Ht). lra. }
-  split.
-  - apply (fun Hle => norm_RInt_le (V:=R_NormedModule) _ _ 0 T _ _ HT Hle H1 (int_poly (b*b) (Rabs b) T)).
-    intros t Ht. rewrite E. eapply Rle_trans. apply rot_fst. apply Hb; auto.
-  - apply (fun Hle => norm_RInt_le (V:=R_NormedModule) _ _ 0 T _ _ HT Hle H2 (int_poly (b*b) (Rabs b) T)).
-    intros t Ht. rewrite E. eapply Rle_trans. apply rot_snd. apply Hb; auto.
+  destruct (Req_dec x 0) as [->|Hx].
+  { rewrite cos_0. replace (1 - 1 - 0 * 0 / 2) with 0 by field. rewrite Rabs_R0. nra. }
+  destruct (MVT_gen (fun s => 1 - cos s - s * s / 2) 0 x (fun s => sin s - s)) as [c [Hc Heq]].
+  - intros s _. auto_derive; auto. field.
+  - intros s _. apply continuity_pt_minus. apply continuity_pt_minus. apply continuity_pt_const; intros ? ?; reflexivity.
+    apply continuity_cos. apply derivable_continuous_pt. apply derivable_pt_div. apply derivable_pt_mult; apply derivable_pt_id.
+    apply derivable_pt_const. intros; lra.
+  - rewrite cos_0 in Heq. replace (1 - 1 - 0 * 0 / 2) with 0 in Heq by field.
+    replace (1 - cos x - x * x / 2) with ((sin c - c) * x) by lra.
+    rewrite Rabs_mult. pose proof (sin_rem c) as Hs.
+    assert (Hcx : Rabs c <= Rabs x).
+    { unfold Rmin, Rmax in Hc. destruct (Rle_dec 0 x); [rewrite !Rabs_right by lra | rewrite !Rabs_left1 by lra]; lra. }
+    assert (Hcc : c * c <= x * x) by (rewrite (sqr_abs c), (sqr_abs x); pose proof (Rabs_pos c); nra).
+    pose proof (Rabs_pos c). pose proof (Rabs_pos x). pose proof (Rabs_pos (sin c - c)).
+    assert (Rabs (sin c - c) <= Rabs x * (x * x) / 2) by nra.
+    replace (x * x * (x * x) / 2) with ((Rabs x * (x * x) / 2) * Rabs x) by (rewrite (sqr_abs x) at 2; field). nra.
 Qed.
 
-(* I2(a,0) - T^2/2 *)
-Lemma I2x_a_close a T : 0 <= T ->
-  Rabs (fst (I2x a 0 T) - T*T/2) <= a * a * (T*T*T*T) / 8 + Rabs a * (T*T*T) / 3 /\
-  Rabs (snd (I2x a 0 T) - 0) <= a * a * (T*T*T*T) / 8 + Rabs a * (T*T*T) / 3.
+Lemma Jim_close2 b t : 0 <= t -> Rabs (Jim b t - b * (t * t) / 2) <= Rabs b * (b * b) * (t * t * (t * t)) / 2.
 Proof.
-  intros HT.
-  assert (Hz : is_CInt (fun t => (t, 0)) 0 T (T*T/2, 0)).
-  { split; simpl. apply int_t. evar_last. apply @is_RInt_const. unfold scal; simpl. unfold mult; simpl. ring. }
-  pose proof (is_CInt_sub _ _ _ _ _ _ (soi_core_integral a 0 T) Hz) as [H1 H2].
-  fold (I2x a 0 T) in H1, H2. cbn [fst snd] in H1, H2.
-  assert (E : forall t, csub' (cmul' (cexp' (a * t)) (Jc 0 t)) (t, 0) = ((cos (a * t) - 1) * t, sin (a * t) * t)).
-  { intros t. rewrite Jc_0. apply c_eq; simpl; ring. }
-  assert (B1 : forall t, 0 <= t <= T -> Rabs ((cos (a * t) - 1) * t) <= a * a * (t*t*t) / 2 + Rabs a * (t*t) / 2 * 2).
-  { intros t [Ht _]. rewrite Rabs_mult, (Rabs_right t) by lra.
-    destruct (one_minus_cos_bound (a * t)) as [H0 Hc]. rewrite Rabs_left1 by lra.
-    assert (K : - (cos (a * t) - 1) * t <= (a * t * (a * t) / 2) * t) by (apply Rmult_le_compat_r; lra).
-    assert (0 <= Rabs a * (t * t)) by (apply Rmult_le_pos; [apply Rabs_pos | nra]).
-    replace (a * a * (t * t * t) / 2) with ((a * t * (a * t) / 2) * t) by field. lra. }
-  assert (B2 : forall t, 0 <= t <= T -> Rabs (sin (a * t) * t) <= a * a * (t*t*t) / 2 + Rabs a * (t*t) / 2 * 2).
-  { intros t [Ht _]. rewrite Rabs_mult, (Rabs_right t) by lra.
-    pose proof (abs_sin_le (a * t)) as Hs. rewrite Rabs_mult, (Rabs_right t) in Hs by lra.
-    assert (K : Rabs (sin (a * t)) * t <= (Rabs a * t) * t) by (apply Rmult_le_compat_r; lra).
-    assert (0 <= a * a * (t * t * t) / 2) by (assert (0 <= a * a) by nra; assert (0 <= t * t * t) by (apply Rmult_le_pos; nra); nra).
-    replace (Rabs a * (t * t) / 2 * 2) with ((Rabs a * t) * t) by field. lra. }
-  assert (P : is_RInt (fun t => a * a * (t*t*t) / 2 + Rabs a * (t*t) / 2 * 2) 0 T (a * a * (T*T*T*T) / 8 + Rabs a * (T*T*T) / 3)).
-  { apply (is_RInt_ext (fun t => (a * a) * (t*t*t) / 2 + (2 * Rabs a) * (t*t) / 2)). intros x _. Req. field.
-    evar_last. apply int_poly. field. }
-  split.
-  - apply (fun Hle => norm_RInt_le (V:=R_NormedModule) _ _ 0 T _ _ HT Hle H1 P).
-    intros t Ht. rewrite E. cbn [fst]. apply B1; auto.
-  - apply (fun Hle => norm_RInt_le (V:=R_NormedModule) _ _ 0 T _ _ HT Hle H2 P).
-    intros t Ht. rewrite E. cbn [snd]. apply B2; auto.
+  intros Ht. destruct (Req_dec b 0) as [->|Hb].
+  - rewrite Jim_0. replace (0 - 0 * (t * t) / 2) with 0 by field. rewrite !Rabs_R0. nra.
+  - rewrite Jim_nz by auto.
+    replace ((1 - cos (b * t)) / b - b * (t * t) / 2) with ((1 - cos (b * t) - (b * t) * (b * t) / 2) / b) by (field; auto).
+    unfold Rdiv at 1. rewrite Rabs_mult, Rabs_inv.
+    assert (Hb' : 0 < Rabs b) by (apply Rabs_pos_lt; auto).
+    apply Rle_trans with (((b * t) * (b * t) * ((b * t) * (b * t)) / 2) * / Rabs b).
+    apply Rmult_le_compat_r. left; apply Rinv_0_lt_compat; auto. apply cos_rem.
+    right. replace (b * t * (b * t) * (b * t * (b * t))) with ((Rabs b * Rabs b) * (b * b) * (t * t * (t * t))) by (rewrite <- (sqr_abs b); ring).
+    field. lra.
 Qed.
 
-(* values of the code's selection in the two truncated regimes *)
-Lemma soi_core_case2' thr2 a b ab T : 0 <= thr2 -> Rabs (b * T) <= thr2 -> thr2 < Rabs (a * T) ->
-  soi_core RO thr2 a b ab T = soi_core_x RO a 0 ab T.
+Lemma int_poly34 c3 c4 T : is_RInt (fun t => c3 * (t * t * t) + c4 * (t * t * (t * t))) 0 T (c3 * (T*T*T*T) / 4 + c4 * (T*T*T*T*T) / 5).
 Proof.
-  intros H0 Hb Ha. unfold soi_core, soi_core_x. rewrite (big_false _ _ _ Hb), (big_true _ _ _ Ha), nz_false.
-  rewrite nz_true. reflexivity. intros ->. rewrite Rmult_0_l, Rabs_R0 in Ha. lra.
+  evar_last. apply (is_RInt_derive (fun t => c3 * (t*t*t*t) / 4 + c4 * (t*t*t*t*t) / 5)).
+  - intros x _. auto_derive; auto. field.
+  - intros x _. apply continuity_pt_filterlim. apply derivable_continuous_pt.
+    apply derivable_pt_plus; apply derivable_pt_mult; try apply derivable_pt_const;
+      repeat apply derivable_pt_mult; apply derivable_pt_id.
+  - unfold minus, plus, opp; simpl. field.
 Qed.
-Lemma soi_core_case3' thr2 a b ab T : Rabs (b * T) <= thr2 -> Rabs (a * T) <= thr2 ->
-  soi_core RO thr2 a b ab T = (T*T/2, 0).
+
+(* int_0^T t^2 e^{i a t} dt *)
+Lemma int_t2cos a T : a <> 0 ->
+  is_RInt (fun t => cos (a*t) * (t * t)) 0 T (T*T * sin (a*T) / a + 2 * T * cos (a*T) / (a*a) - 2 * sin (a*T) / (a*a*a)).
 Proof.
-  intros Hb Ha. unfold soi_core. rewrite (big_false _ _ _ Hb), (big_false _ _ _ Ha).
-  unfold soi_cases_of, cite. simpl. apply c_eq; simpl; auto.
+  intros Ha. evar_last.
+  apply (is_RInt_derive (fun t => t*t * sin (a*t) / a + 2 * t * cos (a*t) / (a*a) - 2 * sin (a*t) / (a*a*a))).
+  - intros x _. auto_derive; auto. field; auto.
+  - intros x _. apply continuity_pt_filterlim. apply continuity_pt_mult. apply (cont_lin_comp cos a continuity_cos).
+    apply derivable_continuous_pt. apply derivable_pt_mult; apply derivable_pt_id.
+  - unfold minus, plus, opp; simpl. replace (a * 0) with 0 by ring. rewrite sin_0, cos_0. field; auto.
 Qed.
+Lemma int_t2sin a T : a <> 0 ->
+  is_RInt (fun t => sin (a*t) * (t * t)) 0 T (- (T*T) * cos (a*T) / a + 2 * T * sin (a*T) / (a*a) + 2 * (cos (a*T) - 1) / (a*a*a)).
+Proof.
+  intros Ha. evar_last.
+  apply (is_RInt_derive (fun t => - (t*t) * cos (a*t) / a + 2 * t * sin (a*t) / (a*a) + 2 * cos (a*t) / (a*a*a))).
+  - intros x _. auto_derive; auto. field; auto.
+  - intros x _. apply continuity_pt_filterlim. apply continuity_pt_mult. apply (cont_lin_comp sin a continuity_sin).
+    apply derivable_continuous_pt. apply derivable_pt_mult; apply derivable_pt_id.
+  - unfold minus, plus, opp; simpl. replace (a * 0) with 0 by ring. rewrite sin_0, cos_0. field; auto.
+Qed.
+
+(* the slope d/db I2(a,b) at b = 0, as the code writes it and as an integral *)
+Definition Sx (a T : R) : Cx :=
+  (- (- (T*T) * cos (a*T) / a + 2 * T * sin (a*T) / (a*a) + 2 * (cos (a*T) - 1) / (a*a*a)) / 2,
+   (T*T * sin (a*T) / a + 2 * T * cos (a*T) / (a*a) - 2 * sin (a*T) / (a*a*a)) / 2).
+Lemma Sx_int a T : a <> 0 -> is_CInt (fun t => cmul' (cexp' (a * t)) (0, t * t / 2)) 0 T (Sx a T).
+Proof.
+  intros Ha. unfold Sx. split; cbn [fst snd].
+  - apply (is_RInt_ext (fun t => scal (- / 2) (sin (a * t) * (t * t)))).
+    { intros x _. Req. unfold scal; simpl. unfold mult; simpl. field. }
+    evar_last. apply @is_RInt_scal. apply int_t2sin; auto. unfold scal; simpl. unfold mult; simpl. field; auto.
+  - apply (is_RInt_ext (fun t => scal (/ 2) (cos (a * t) * (t * t)))).
+    { intros x _. Req. unfold scal; simpl. unfold mult; simpl. field. }
+    evar_last. apply @is_RInt_scal. apply int_t2cos; auto. unfold scal; simpl. unfold mult; simpl. field; auto.
+Qed.
+
+(* values of the code's selection *)
 Lemma soi_core_case1' thr2 a b ab T : 0 <= thr2 -> thr2 < Rabs (b * T) ->
   soi_core RO thr2 a b ab T = soi_core_x RO a b ab T.
 Proof.
   intros H0 Hb. unfold soi_core, soi_core_x. rewrite (big_true _ _ _ Hb).
   rewrite nz_true. reflexivity. intros ->. rewrite Rmult_0_l, Rabs_R0 in Hb. lra.
 Qed.
+Lemma soi_core_case2' thr2 a b ab T : 0 <= thr2 -> Rabs (b * T) <= thr2 -> thr2 < Rabs (a * T) ->
+  soi_core RO thr2 a b ab T = cadd' (I2x a 0 T) (cscal RO b (Sx a T)).
+Proof.
+  intros H0 Hb Ha. assert (Hne : a <> 0) by (intros ->; rewrite Rmult_0_l, Rabs_R0 in Ha; lra).
+  unfold soi_core. rewrite (big_false _ _ _ Hb), (big_true _ _ _ Ha).
+  unfold I2x. rewrite soi_core_case2 by auto.
+  unfold soi_cases_of, cite. rewrite (frc_nz a T Hne), em1_val. unfold Sx, cdivr, cadd, csub, cscal, c1, o2; simpl.
+  apply c_eq; simpl; field; auto.
+Qed.
+Lemma soi_core_case3' thr2 a b ab T : Rabs (b * T) <= thr2 -> Rabs (a * T) <= thr2 ->
+  soi_core RO thr2 a b ab T = (T*T/2, T*T*T * (a/3 + b/6)).
+Proof.
+  intros Hb Ha. unfold soi_core. rewrite (big_false _ _ _ Hb), (big_false _ _ _ Ha).
+  unfold soi_cases_of, cite. simpl. apply c_eq; simpl; unfold o2; simpl; field.
+Qed.
 
-Lemma sqr_abs x : x * x = Rabs x * Rabs x.
-Proof. rewrite <- Rabs_mult. symmetry. apply Rabs_right. apply Rle_ge. nra. Qed.
+Definition soi_eps (thr2 T : R) : R := thr2 * thr2 * (T * T) * (3/8 + thr2/4).
 
-Definition soi_eps (thr2 T : R) : R := thr2 * (T * T) * (1/2 + thr2/4).
+(* powers of |x| T <= thr2 *)
+Lemma pow_small thr2 x T : 0 <= T -> Rabs (x * T) <= thr2 ->
+  0 <= Rabs x * T <= thr2.
+Proof. intros HT H. rewrite Rabs_mult, (Rabs_right T) in H by lra. pose proof (Rabs_pos x). split; nra. Qed.
+
+(* case 2: I2(a,b) - [I2(a,0) + b S(a)] *)
+Lemma case2_close a b T : 0 <= T -> a <> 0 ->
+  let V := cadd' (I2x a 0 T) (cscal RO b (Sx a T)) in
+  Rabs (fst V - fst (I2x a b T)) <= (b * b / 2) * (T*T*T*T) / 4 + (Rabs b * (b * b) / 2) * (T*T*T*T*T) / 5 /\
+  Rabs (snd V - snd (I2x a b T)) <= (b * b / 2) * (T*T*T*T) / 4 + (Rabs b * (b * b) / 2) * (T*T*T*T*T) / 5.
+Proof.
+  intros HT Ha V.
+  pose proof (is_CInt_sub _ _ _ _ _ _ (soi_core_integral a b T)
+               (is_CInt_add _ _ _ _ _ _ (soi_core_integral a 0 T) (is_CInt_cmul_l (b, 0) _ _ _ _ (Sx_int a T Ha)))) as [H1 H2].
+  fold (I2x a b T) (I2x a 0 T) in H1, H2.
+  assert (EV : cadd' (I2x a 0 T) (cmul' (b, 0) (Sx a T)) = V) by (unfold V; apply c_eq; simpl; ring).
+  rewrite EV in H1, H2.
+  assert (E : forall t, csub' (cmul' (cexp' (a * t)) (Jc b t))
+                          (cadd' (cmul' (cexp' (a * t)) (Jc 0 t)) (cmul' (b, 0) (cmul' (cexp' (a * t)) (0, t * t / 2)))) =
+                        cmul' (cexp' (a * t)) (Jre b t - t, Jim b t - b * (t * t) / 2)).
+  { intros t. unfold Jc. rewrite Jre_0, Jim_0. apply c_eq; simpl; field. }
+  assert (Hb : forall t, 0 <= t <= T -> Rabs (Jre b t - t) + Rabs (Jim b t - b * (t * t) / 2)
+                 <= (b * b / 2) * (t*t*t) + (Rabs b * (b * b) / 2) * (t*t*(t*t))).
+  { intros t [Ht _]. pose proof (Jre_close b t Ht). pose proof (Jim_close2 b t Ht). lra. }
+  split.
+  - rewrite Rabs_minus_sym.
+    apply (fun Hle => norm_RInt_le (V:=R_NormedModule) _ _ 0 T _ _ HT Hle H1 (int_poly34 (b*b/2) (Rabs b * (b*b)/2) T)).
+    intros t Ht. rewrite E. eapply Rle_trans. apply rot_fst. apply Hb; auto.
+  - rewrite Rabs_minus_sym.
+    apply (fun Hle => norm_RInt_le (V:=R_NormedModule) _ _ 0 T _ _ HT Hle H2 (int_poly34 (b*b/2) (Rabs b * (b*b)/2) T)).
+    intros t Ht. rewrite E. eapply Rle_trans. apply rot_snd. apply Hb; auto.
+Qed.
+
+Lemma abs_bt2 b t : Rabs (b * (t * t) / 2) = Rabs b * (t * t) / 2.
+Proof.
+  unfold Rdiv. rewrite Rabs_mult, (Rabs_mult b), (Rabs_right (t * t)), (Rabs_right (/ 2)); try lra. apply Rle_ge; nra.
+Qed.
+
+(* case 3: I2(a,b) - [T^2/2 + i T^3 (a/3 + b/6)] *)
+Lemma case3_close a b T : 0 <= T ->
+  let C3 := (a * a + b * b + Rabs a * Rabs b) / 2 in
+  let C4 := (Rabs a * (a * a) + Rabs b * (b * b)) / 2 + Rabs b * (a * a) / 4 in
+  Rabs (T*T/2 - fst (I2x a b T)) <= C3 * (T*T*T*T) / 4 + C4 * (T*T*T*T*T) / 5 /\
+  Rabs (T*T*T * (a/3 + b/6) - snd (I2x a b T)) <= C3 * (T*T*T*T) / 4 + C4 * (T*T*T*T*T) / 5.
+Proof.
+  intros HT C3 C4.
+  assert (Hz : is_CInt (fun t => (t, a * (t * t) + b * (t * t) / 2)) 0 T (T*T/2, T*T*T * (a/3 + b/6))).
+  { split; cbn [fst snd]. apply int_t.
+    evar_last. apply (is_RInt_derive (fun t => (t*t*t) * (a/3 + b/6))).
+    - intros x _. auto_derive; auto. field.
+    - intros x _. apply continuity_pt_filterlim. apply derivable_continuous_pt.
+      apply derivable_pt_plus; [|apply derivable_pt_div; [|apply derivable_pt_const|intros; lra]];
+        apply derivable_pt_mult; try apply derivable_pt_const; apply derivable_pt_mult; apply derivable_pt_id.
+    - unfold minus, plus, opp; simpl. field. }
+  pose proof (is_CInt_sub _ _ _ _ _ _ (soi_core_integral a b T) Hz) as [H1 H2].
+  fold (I2x a b T) in H1, H2. cbn [fst snd] in H1, H2.
+  (* integrand = e^{iat} (r1, r2) + t (cos-1, sin - at) + (b t^2/2) (-sin, cos-1) *)
+  assert (E : forall t, csub' (cmul' (cexp' (a * t)) (Jc b t)) (t, a * (t * t) + b * (t * t) / 2) =
+     cadd' (cmul' (cexp' (a * t)) (Jre b t - t, Jim b t - b * (t * t) / 2))
+           (cadd' (t * (cos (a * t) - 1), t * (sin (a * t) - a * t))
+                  (- (b * (t * t) / 2) * sin (a * t), b * (t * t) / 2 * (cos (a * t) - 1)))).
+  { intros t. unfold Jc. apply c_eq; simpl; field. }
+  assert (G : forall t, 0 <= t <= T ->
+     Rabs (Jre b t - t) + Rabs (Jim b t - b * (t * t) / 2) +
+     (Rabs (t * (cos (a * t) - 1)) + Rabs (t * (sin (a * t) - a * t))) +
+     (Rabs (b * (t * t) / 2 * sin (a * t)) + Rabs (b * (t * t) / 2 * (cos (a * t) - 1)))
+     <= C3 * (t*t*t) + C4 * (t*t*(t*t))).
+  { intros t [Ht _]. pose proof (Jre_close b t Ht) as B1. pose proof (Jim_close2 b t Ht) as B2.
+    assert (B3 : Rabs (t * (cos (a * t) - 1)) <= a * a * (t*t*t) / 2).
+    { rewrite Rabs_mult, (Rabs_right t) by lra. destruct (one_minus_cos_bound (a * t)) as [H0 Hc].
+      rewrite Rabs_left1 by lra. assert (t * - (cos (a*t) - 1) <= t * (a * t * (a * t) / 2)) by (apply Rmult_le_compat_l; lra). lra. }
+    assert (B4 : Rabs (t * (sin (a * t) - a * t)) <= Rabs a * (a * a) * (t*t*(t*t)) / 2).
+    { rewrite Rabs_mult, (Rabs_right t) by lra. pose proof (sin_rem (a * t)) as Hs.
+      rewrite Rabs_mult, (Rabs_right t) in Hs by lra.
+      assert (t * Rabs (sin (a*t) - a*t) <= t * (Rabs a * t * (a * t * (a * t)) / 2)) by (apply Rmult_le_compat_l; lra). lra. }
+    assert (B5 : Rabs (b * (t * t) / 2 * sin (a * t)) <= Rabs a * Rabs b * (t*t*t) / 2).
+    { rewrite Rabs_mult. pose proof (abs_sin_le (a * t)) as Hs. rewrite Rabs_mult, (Rabs_right t) in Hs by lra.
+      rewrite abs_bt2.
+      pose proof (Rabs_pos b). assert (0 <= Rabs b * (t * t) / 2) by (assert (0 <= t * t) by nra; nra).
+      assert (Rabs b * (t*t) / 2 * Rabs (sin (a*t)) <= Rabs b * (t*t) / 2 * (Rabs a * t)) by (apply Rmult_le_compat_l; lra). lra. }
+    assert (B6 : Rabs (b * (t * t) / 2 * (cos (a * t) - 1)) <= Rabs b * (a * a) * (t*t*(t*t)) / 4).
+    { rewrite Rabs_mult. destruct (one_minus_cos_bound (a * t)) as [H0 Hc]. rewrite (Rabs_left1 (cos (a*t) - 1)) by lra.
+      rewrite abs_bt2.
+      pose proof (Rabs_pos b). assert (0 <= Rabs b * (t * t) / 2) by (assert (0 <= t * t) by nra; nra).
+      assert (Rabs b * (t*t) / 2 * - (cos (a*t) - 1) <= Rabs b * (t*t) / 2 * (a * t * (a * t) / 2)) by (apply Rmult_le_compat_l; lra). lra. }
+    unfold C3, C4. lra. }
+  assert (P := int_poly34 C3 C4 T).
+  split.
+  - rewrite Rabs_minus_sym.
+    apply (fun Hle => norm_RInt_le (V:=R_NormedModule) _ _ 0 T _ _ HT Hle H1 P).
+    intros t Ht. rewrite E. specialize (G t Ht).
+    pose proof (rot_fst (a * t) (Jre b t - t) (Jim b t - b * (t * t) / 2)) as R1.
+    change (norm ?x) with (Rabs x). cbn [fst cadd RO oadd] in *.
+    eapply Rle_trans. apply Rabs_triang. eapply Rle_trans. apply Rplus_le_compat. exact R1. apply Rabs_triang.
+    assert (HZ : Rabs (- (b * (t * t) / 2) * sin (a * t)) = Rabs (b * (t * t) / 2 * sin (a * t)))
+      by (rewrite <- Rabs_Ropp; f_equal; ring).
+    rewrite HZ.
+    pose proof (Rabs_pos (t * (sin (a * t) - a * t))). pose proof (Rabs_pos (b * (t * t) / 2 * (cos (a * t) - 1))). lra.
+  - rewrite Rabs_minus_sym.
+    apply (fun Hle => norm_RInt_le (V:=R_NormedModule) _ _ 0 T _ _ HT Hle H2 P).
+    intros t Ht. rewrite E. specialize (G t Ht).
+    pose proof (rot_snd (a * t) (Jre b t - t) (Jim b t - b * (t * t) / 2)) as R1.
+    change (norm ?x) with (Rabs x). cbn [snd cadd RO oadd] in *.
+    eapply Rle_trans. apply Rabs_triang. eapply Rle_trans. apply Rplus_le_compat. exact R1. apply Rabs_triang.
+    pose proof (Rabs_pos (t * (cos (a * t) - 1))). pose proof (Rabs_pos (b * (t * t) / 2 * sin (a * t))). lra.
+Qed.
 
 (* the code's value against the exact iterated integral, all (a, b), all T >= 0 *)
 Theorem soi_bound thr2 a b T : 0 <= thr2 -> 0 <= T ->
@@ -175,37 +318,39 @@ Proof.
   intros H0 HT. unfold soi_eps.
   assert (HTT : 0 <= T * T) by nra.
   destruct (Rle_or_lt (Rabs (b * T)) thr2) as [Hb|Hb].
-  2:{ rewrite soi_core_case1' by auto. fold (I2x a b T). rewrite !Rminus_eq_0, Rabs_R0. split; nra. }
-  assert (Kb : b * b * (T*T*T*T) / 8 + Rabs b * (T*T*T) / 6 <= thr2 * (T*T) * (1/6 + thr2/8)).
-  { rewrite Rabs_mult, (Rabs_right T) in Hb by lra. pose proof (Rabs_pos b).
-    assert (Hsq : b * b * (T * T) <= thr2 * thr2).
-    { replace (b * b * (T * T)) with ((Rabs b * T) * (Rabs b * T)) by (rewrite (sqr_abs b); ring).
-      apply Rmult_le_compat; nra. }
-    assert (b * b * (T*T*T*T) <= thr2 * thr2 * (T * T)) by nra.
-    assert (Rabs b * (T*T*T) <= thr2 * (T * T)) by nra. nra. }
-  destruct (I2x_b_close a b T HT) as [Lb1 Lb2].
+  2:{ rewrite soi_core_case1' by auto. fold (I2x a b T). rewrite !Rminus_eq_0, Rabs_R0.
+      assert (0 <= thr2 * thr2 * (T * T) * (3 / 8 + thr2 / 4)) by (apply Rmult_le_pos; [apply Rmult_le_pos; nra | lra]). split; lra. }
+  destruct (pow_small thr2 b T HT Hb) as [Hy0 Hy]. set (y := Rabs b * T) in *.
   destruct (Rle_or_lt (Rabs (a * T)) thr2) as [Ha|Ha].
   - rewrite soi_core_case3' by auto. cbn [fst snd].
-    assert (Ka : a * a * (T*T*T*T) / 8 + Rabs a * (T*T*T) / 3 <= thr2 * (T*T) * (1/3 + thr2/8)).
-    { rewrite Rabs_mult, (Rabs_right T) in Ha by lra. pose proof (Rabs_pos a).
-      assert (Hsq : a * a * (T * T) <= thr2 * thr2).
-      { replace (a * a * (T * T)) with ((Rabs a * T) * (Rabs a * T)) by (rewrite (sqr_abs a); ring).
-      apply Rmult_le_compat; nra. }
-      assert (a * a * (T*T*T*T) <= thr2 * thr2 * (T * T)) by nra.
-      assert (Rabs a * (T*T*T) <= thr2 * (T * T)) by nra. nra. }
-    destruct (I2x_a_close a T HT) as [La1 La2].
-    split.
-    + replace (T*T/2 - fst (I2x a b T)) with (- ((fst (I2x a b T) - fst (I2x a 0 T)) + (fst (I2x a 0 T) - T*T/2))) by ring.
-      rewrite Rabs_Ropp. eapply Rle_trans. apply Rabs_triang. nra.
-    + replace (0 - snd (I2x a b T)) with (- ((snd (I2x a b T) - snd (I2x a 0 T)) + (snd (I2x a 0 T) - 0))) by ring.
-      rewrite Rabs_Ropp. eapply Rle_trans. apply Rabs_triang. nra.
+    destruct (pow_small thr2 a T HT Ha) as [Hx0 Hx]. set (x := Rabs a * T) in *.
+    destruct (case3_close a b T HT) as [L1 L2].
+    assert (K : (a * a + b * b + Rabs a * Rabs b) / 2 * (T*T*T*T) / 4 +
+                ((Rabs a * (a * a) + Rabs b * (b * b)) / 2 + Rabs b * (a * a) / 4) * (T*T*T*T*T) / 5
+                <= thr2 * thr2 * (T * T) * (3 / 8 + thr2 / 4)).
+    { rewrite (sqr_abs a), (sqr_abs b).
+      replace ((Rabs a * Rabs a + Rabs b * Rabs b + Rabs a * Rabs b) / 2 * (T*T*T*T) / 4 +
+               ((Rabs a * (Rabs a * Rabs a) + Rabs b * (Rabs b * Rabs b)) / 2 + Rabs b * (Rabs a * Rabs a) / 4) * (T*T*T*T*T) / 5)
+        with ((T * T) * ((x*x + y*y + x*y) / 8 + (x*x*x + y*y*y) / 10 + y*x*x / 20)) by (unfold x, y; field).
+      assert (x*x <= thr2*thr2) by nra. assert (y*y <= thr2*thr2) by nra. assert (x*y <= thr2*thr2) by nra.
+      assert (x*x*x <= thr2*thr2*thr2) by (assert (x*x*x <= thr2*thr2*x) by nra; nra).
+      assert (y*y*y <= thr2*thr2*thr2) by (assert (y*y*y <= thr2*thr2*y) by nra; nra).
+      assert (y*x*x <= thr2*thr2*thr2) by (assert (y*(x*x) <= y*(thr2*thr2)) by (apply Rmult_le_compat_l; lra); nra).
+      replace (thr2 * thr2 * (T * T) * (3 / 8 + thr2 / 4)) with ((T*T) * (3*(thr2*thr2)/8 + (thr2*thr2*thr2)/4)) by field.
+      apply Rmult_le_compat_l; lra. }
+    split; lra.
   - rewrite soi_core_case2' by auto.
-    assert (E : soi_core_x RO a 0 (a + b) T = I2x a 0 T).
-    { unfold I2x. assert (a <> 0) by (intros ->; rewrite Rmult_0_l, Rabs_R0 in Ha; lra).
-      rewrite !soi_core_case2 by auto. reflexivity. }
-    rewrite E. split.
-    + rewrite Rabs_minus_sym. nra.
-    + rewrite Rabs_minus_sym. nra.
+    assert (Hne : a <> 0) by (intros ->; rewrite Rmult_0_l, Rabs_R0 in Ha; lra).
+    destruct (case2_close a b T HT Hne) as [L1 L2]. cbv zeta in L1, L2.
+    assert (K : b * b / 2 * (T*T*T*T) / 4 + Rabs b * (b * b) / 2 * (T*T*T*T*T) / 5 <= thr2 * thr2 * (T * T) * (3 / 8 + thr2 / 4)).
+    { rewrite (sqr_abs b).
+      replace (Rabs b * Rabs b / 2 * (T*T*T*T) / 4 + Rabs b * (Rabs b * Rabs b) / 2 * (T*T*T*T*T) / 5)
+        with ((T * T) * (y*y / 8 + y*y*y / 10)) by (unfold y; field).
+      assert (y*y <= thr2*thr2) by nra. assert (y*y*y <= thr2*thr2*thr2) by (assert (y*y*y <= thr2*thr2*y) by nra; nra).
+      replace (thr2 * thr2 * (T * T) * (3 / 8 + thr2 / 4)) with ((T*T) * (3*(thr2*thr2)/8 + (thr2*thr2*thr2)/4)) by field.
+      assert (0 <= thr2*thr2) by nra. assert (0 <= thr2*thr2*thr2) by (apply Rmult_le_pos; nra).
+      apply Rmult_le_compat_l; lra. }
+    split; lra.
 Qed.
 
 (* ... and that exact value is the iterated integral (soi_cases) *)
@@ -216,22 +361,28 @@ Corollary soi_bound_integral thr2 a b T : 0 <= thr2 -> 0 <= T ->
 Proof. intros H0 HT. exists (I2x a b T). split. apply soi_cases. apply soi_bound; auto. Qed.
 
 (* ------------------------------------------------------------------ amplification of evaluation errors
-   The three case formulas as functions of the already evaluated buffers
+   The case formulas as functions of the already evaluated buffers
      f1 = frc(dEE), f2 = frc(dEdE), ex = dt e^{i dEE dt}   (all of size ~T).
-   If these are known to within u*T (componentwise) the case value moves by at most 2 u T^2 / thr2, because
-   the code only divides by denominators with |x T| > thr2.  Together with soi_bound this is the error budget
-        thr2 T^2 (1/2 + thr2/4)  +  2 u T^2 / thr2
+   If these are known to within u*T (componentwise) the case-1 value moves by at most 2 u T^2 / thr2 and the
+   case-2 value by at most u T^2 (4/thr2 + 1/2), because the code only divides by denominators with |x T| > thr2
+   and multiplies the slope by an EdE with |EdE T| <= thr2.  Together with soi_bound this is the error budget
+        thr2^2 T^2 (3/8 + thr2/4)  +  u T^2 (4/thr2 + 1/2)
    of one entry of the segment integral (u: accuracy of sin/cos/division in units of T, not proved here).     *)
 Definition case1_of (f1 f2 : Cx) (b : R) : Cx := cdivr RO (csub' f1 f2) b.
-Definition case2_of (f1 ex : Cx) (a : R) : Cx := cdivr RO (fst f1 + snd ex, snd f1 - fst ex) a.
+Definition i0_of (f1 ex : Cx) (a : R) : Cx := cdivr RO (fst f1 + snd ex, snd f1 - fst ex) a.
+Definition case2_of (f1 ex : Cx) (a b T : R) : Cx :=
+  let i0 := i0_of f1 ex a in
+  let sl := cdivr RO (csub' (fst ex * T, snd ex * T) (cscal RO 2 i0)) (2 * a) in
+  cadd' i0 (fst sl * b, snd sl * b).
 
 Lemma soi_cases_of_buffers (m1 m2 : bool) a b ab T :
   soi_cases_of RO m1 m2 a b ab T =
   cite RO m1 (case1_of (frc RO a T) (frc RO ab T) b)
-       (cite RO m2 (case2_of (frc RO a T) (cscal RO T (cexp' (a * T))) a) (T * T / 2, 0)).
+       (cite RO m2 (case2_of (frc RO a T) (cscal RO T (cexp' (a * T))) a b T) (T * T / 2, T * T * T * (a / 3 + b / 6))).
 Proof.
-  unfold soi_cases_of, case1_of, case2_of. rewrite em1_val.
-  destruct m1; [reflexivity|]. destruct m2; unfold cite; simpl; apply c_eq; simpl; unfold o2, Rdiv; simpl; try ring; replace (1 + 1) with 2 by ring; ring.
+  unfold soi_cases_of, case1_of, case2_of, i0_of. rewrite em1_val.
+  destruct m1; [reflexivity|]. destruct m2; unfold cite; simpl; apply c_eq; simpl; unfold o2, Rdiv; simpl;
+    try ring; replace (1 + 1) with 2 by ring; replace (2 + 1) with 3 by ring; replace (2 * 3) with 6 by ring; ring.
 Qed.
 
 Lemma inv_small thr2 x T : 0 < thr2 -> 0 <= T -> thr2 < Rabs (x * T) -> / Rabs x <= T / thr2.
@@ -248,6 +399,18 @@ Proof.
   right. field. split; lra.
 Qed.
 
+(* |(p' + sg q')/x - (p + sg q)/x| <= (P + Q) / |x| *)
+Lemma div_pert x p q p' q' sg P Q : (sg = 1 \/ sg = -1) -> x <> 0 -> Rabs (p' - p) <= P -> Rabs (q' - q) <= Q ->
+  Rabs ((p' + sg * q') / x - (p + sg * q) / x) <= (P + Q) * / Rabs x.
+Proof.
+  intros Hsg Hx Hp Hq.
+  replace ((p' + sg * q') / x - (p + sg * q) / x) with (((p' - p) + sg * (q' - q)) / x) by (unfold Rdiv; ring).
+  unfold Rdiv. rewrite Rabs_mult, Rabs_inv.
+  apply Rmult_le_compat_r. left. apply Rinv_0_lt_compat, Rabs_pos_lt; auto.
+  eapply Rle_trans. apply Rabs_triang. rewrite Rabs_mult.
+  assert (Rabs sg = 1) by (destruct Hsg as [->| ->]; [apply Rabs_R1 | rewrite Rabs_left; lra]). rewrite H. lra.
+Qed.
+
 Theorem case1_amplification thr2 u T b (f1 f2 f1' f2' : Cx) : 0 < thr2 -> 0 <= T -> 0 <= u -> thr2 < Rabs (b * T) ->
   Rabs (fst f1' - fst f1) <= u * T -> Rabs (snd f1' - snd f1) <= u * T ->
   Rabs (fst f2' - fst f2) <= u * T -> Rabs (snd f2' - snd f2) <= u * T ->
@@ -255,39 +418,65 @@ Theorem case1_amplification thr2 u T b (f1 f2 f1' f2' : Cx) : 0 < thr2 -> 0 <= T
   Rabs (snd (case1_of f1' f2' b) - snd (case1_of f1 f2 b)) <= 2 * u * (T * T) / thr2.
 Proof.
   intros H0 HT Hu Hb A1 A2 B1 B2. pose proof (inv_small thr2 b T H0 HT Hb) as Hi.
-  assert (Hinv : 0 <= / Rabs b) by (left; apply Rinv_0_lt_compat; destruct (Req_dec b 0) as [->|]; [rewrite Rmult_0_l, Rabs_R0 in Hb; lra | apply Rabs_pos_lt; auto]).
+  assert (Hne : b <> 0) by (intros ->; rewrite Rmult_0_l, Rabs_R0 in Hb; lra).
   assert (K : forall x y x' y', Rabs (x' - x) <= u * T -> Rabs (y' - y) <= u * T ->
             Rabs ((x' - y') / b - (x - y) / b) <= 2 * u * (T * T) / thr2).
-  { intros x y x' y' Hx Hy. replace ((x' - y') / b - (x - y) / b) with (((x' - x) - (y' - y)) / b) by (unfold Rdiv; ring).
-    unfold Rdiv. rewrite Rabs_mult, Rabs_inv.
-    apply Rle_trans with ((u * T + u * T) * (T / thr2)).
-    apply Rmult_le_compat; auto. apply Rabs_pos.
-    eapply Rle_trans. apply Rabs_triang. rewrite Rabs_Ropp. lra.
+  { intros x y x' y' Hx Hy.
+    replace (x' - y') with (x' + -1 * y') by ring. replace (x - y) with (x + -1 * y) by ring.
+    eapply Rle_trans. apply (div_pert b x y x' y' (-1) (u*T) (u*T)); auto.
+    apply Rle_trans with ((u * T + u * T) * (T / thr2)). apply Rmult_le_compat_l; nra.
     right. field. lra. }
   unfold case1_of, cdivr, csub; simpl. split; apply K; auto.
 Qed.
 
-Theorem case2_amplification thr2 u T a (f1 ex f1' ex' : Cx) : 0 < thr2 -> 0 <= T -> 0 <= u -> thr2 < Rabs (a * T) ->
+Theorem case2_amplification thr2 u T a b (f1 ex f1' ex' : Cx) : 0 < thr2 -> 0 <= T -> 0 <= u ->
+  thr2 < Rabs (a * T) -> Rabs (b * T) <= thr2 ->
   Rabs (fst f1' - fst f1) <= u * T -> Rabs (snd f1' - snd f1) <= u * T ->
   Rabs (fst ex' - fst ex) <= u * T -> Rabs (snd ex' - snd ex) <= u * T ->
-  Rabs (fst (case2_of f1' ex' a) - fst (case2_of f1 ex a)) <= 2 * u * (T * T) / thr2 /\
-  Rabs (snd (case2_of f1' ex' a) - snd (case2_of f1 ex a)) <= 2 * u * (T * T) / thr2.
+  Rabs (fst (case2_of f1' ex' a b T) - fst (case2_of f1 ex a b T)) <= u * (T * T) * (4 / thr2 + 1 / 2) /\
+  Rabs (snd (case2_of f1' ex' a b T) - snd (case2_of f1 ex a b T)) <= u * (T * T) * (4 / thr2 + 1 / 2).
 Proof.
-  intros H0 HT Hu Ha A1 A2 B1 B2. pose proof (inv_small thr2 a T H0 HT Ha) as Hi.
-  assert (Hinv : 0 <= / Rabs a) by (left; apply Rinv_0_lt_compat; destruct (Req_dec a 0) as [->|]; [rewrite Rmult_0_l, Rabs_R0 in Ha; lra | apply Rabs_pos_lt; auto]).
-  assert (K : forall x y x' y' (sg : R), (sg = 1 \/ sg = -1) -> Rabs (x' - x) <= u * T -> Rabs (y' - y) <= u * T ->
-            Rabs ((x' + sg * y') / a - (x + sg * y) / a) <= 2 * u * (T * T) / thr2).
-  { intros x y x' y' sg Hsg Hx Hy.
-    replace ((x' + sg * y') / a - (x + sg * y) / a) with (((x' - x) + sg * (y' - y)) / a) by (unfold Rdiv; ring).
-    unfold Rdiv. rewrite Rabs_mult, Rabs_inv.
-    apply Rle_trans with ((u * T + u * T) * (T / thr2)).
-    apply Rmult_le_compat; auto. apply Rabs_pos.
-    eapply Rle_trans. apply Rabs_triang. rewrite Rabs_mult.
-    assert (Rabs sg = 1) by (destruct Hsg as [->| ->]; [apply Rabs_R1 | rewrite Rabs_left; lra]). rewrite H. lra.
-    right. field. lra. }
-  unfold case2_of, cdivr; simpl. split.
-  - replace (fst f1' + snd ex') with (fst f1' + 1 * snd ex') by ring. replace (fst f1 + snd ex) with (fst f1 + 1 * snd ex) by ring.
-    apply K; auto.
-  - replace (snd f1' - fst ex') with (snd f1' + -1 * fst ex') by ring. replace (snd f1 - fst ex) with (snd f1 + -1 * fst ex) by ring.
-    apply K; auto.
+  intros H0 HT Hu Ha Hb A1 A2 B1 B2. pose proof (inv_small thr2 a T H0 HT Ha) as Hi.
+  assert (Hne : a <> 0) by (intros ->; rewrite Rmult_0_l, Rabs_R0 in Ha; lra).
+  assert (HT' : 0 < T). { destruct (Req_dec T 0) as [->|]; [rewrite Rmult_0_r, Rabs_R0 in Ha; lra | lra]. }
+  assert (Hbs : Rabs b <= thr2 / T).
+  { rewrite Rabs_mult, (Rabs_right T) in Hb by lra. apply Rmult_le_reg_r with T; auto.
+    unfold Rdiv. rewrite Rmult_assoc, Rinv_l by lra. lra. }
+  set (D0 := 2 * u * (T * T) / thr2).
+  (* the value at EdE = 0 *)
+  assert (I1 : Rabs (fst (i0_of f1' ex' a) - fst (i0_of f1 ex a)) <= D0).
+  { unfold i0_of, cdivr; simpl.
+    replace (fst f1' + snd ex') with (fst f1' + 1 * snd ex') by ring. replace (fst f1 + snd ex) with (fst f1 + 1 * snd ex) by ring.
+    eapply Rle_trans. apply (div_pert a _ _ _ _ 1 (u*T) (u*T)); auto.
+    apply Rle_trans with ((u * T + u * T) * (T / thr2)). apply Rmult_le_compat_l; nra. right. unfold D0. field. lra. }
+  assert (I2 : Rabs (snd (i0_of f1' ex' a) - snd (i0_of f1 ex a)) <= D0).
+  { unfold i0_of, cdivr; simpl.
+    replace (snd f1' - fst ex') with (snd f1' + -1 * fst ex') by ring. replace (snd f1 - fst ex) with (snd f1 + -1 * fst ex) by ring.
+    eapply Rle_trans. apply (div_pert a _ _ _ _ (-1) (u*T) (u*T)); auto.
+    apply Rle_trans with ((u * T + u * T) * (T / thr2)). apply Rmult_le_compat_l; nra. right. unfold D0. field. lra. }
+  (* the slope times EdE *)
+  assert (S : forall e e' i i', Rabs (e' - e) <= u * T -> Rabs (i' - i) <= D0 ->
+            Rabs ((e' * T - 2 * i') / (2 * a) * b - (e * T - 2 * i) / (2 * a) * b) <= u * (T * T) / 2 + D0).
+  { intros e e' i i' He Hi'.
+    replace ((e' * T - 2 * i') / (2 * a) * b - (e * T - 2 * i) / (2 * a) * b)
+      with ((((e' - e) * T - 2 * (i' - i)) / a) * (b / 2)) by (field; auto).
+    rewrite Rabs_mult. unfold Rdiv at 1. rewrite Rabs_mult, Rabs_inv.
+    assert (N : Rabs ((e' - e) * T - 2 * (i' - i)) <= u * T * T + 2 * D0).
+    { eapply Rle_trans. apply Rabs_triang. rewrite Rabs_Ropp, !Rabs_mult, (Rabs_right T), (Rabs_right 2) by lra.
+      pose proof (Rabs_pos (e' - e)). nra. }
+    assert (Hb2 : Rabs (b / 2) <= thr2 / T / 2).
+    { unfold Rdiv at 1. rewrite Rabs_mult, (Rabs_right (/ 2)) by lra. lra. }
+    assert (0 <= D0) by (unfold D0; apply Rmult_le_pos; [nra | left; apply Rinv_0_lt_compat; lra]).
+    apply Rle_trans with ((u * T * T + 2 * D0) * (T / thr2) * (thr2 / T / 2)).
+    - apply Rmult_le_compat; try apply Rabs_pos; auto.
+      apply Rmult_le_pos. apply Rabs_pos. left. apply Rinv_0_lt_compat, Rabs_pos_lt; auto.
+      apply Rmult_le_compat; try apply Rabs_pos; auto. left. apply Rinv_0_lt_compat, Rabs_pos_lt; auto.
+    - right. field. split; lra. }
+  assert (E : u * (T * T) * (4 / thr2 + 1 / 2) = D0 + (u * (T * T) / 2 + D0)) by (unfold D0; field; lra).
+  rewrite E. unfold case2_of. fold (i0_of f1' ex' a) (i0_of f1 ex a).
+  unfold cdivr, csub, cadd, cscal; simpl. split.
+  - match goal with |- Rabs (?x' + ?s' - (?x + ?s)) <= _ => replace (x' + s' - (x + s)) with ((x' - x) + (s' - s)) by ring end.
+    eapply Rle_trans. apply Rabs_triang. apply Rplus_le_compat. exact I1. apply S; auto.
+  - match goal with |- Rabs (?x' + ?s' - (?x + ?s)) <= _ => replace (x' + s' - (x + s)) with ((x' - x) + (s' - s)) by ring end.
+    eapply Rle_trans. apply Rabs_triang. apply Rplus_le_compat. exact I2. apply S; auto.
 Qed.
